@@ -333,6 +333,11 @@ class Check(object):
         for f in os.listdir(self.dir):
             if f.startswith("replay_"):
                 os.remove(os.path.join(self.dir, f))
+        # every check runs under a (generous) watchdog: a changed implementation may make a run
+        # explode; that must end as a reported violation, not as a dead or endless process
+        if os.environ.get("VERIF_WATCHDOG", "1") != "0":
+            self.start_watchdog(rss_gb=float(os.environ.get("VERIF_WATCHDOG_RSS_GB", "10")),
+                                wall_s=float(os.environ.get("VERIF_WATCHDOG_WALL_S", "2400" if tier == "quick" else "21600")))
 
     # -- bookkeeping -------------------------------------------------------
     def note(self, msg):
